@@ -18,6 +18,7 @@
 #include <condition_variable>
 #include <cstdint>
 #include <deque>
+#include <exception>
 #include <iostream>
 #include <memory>
 #include <mutex>
@@ -264,6 +265,9 @@ namespace bloch::runtime {
         std::mutex m_gcMutex;
         std::mutex m_heapMutex;
         size_t m_allocSinceGc = 0;
+        // Error raised by a user destructor while an object was being released (see the
+        // object deleter); rethrown at the next statement boundary.
+        std::exception_ptr m_pendingDestructorError;
         // Buffer for echo outputs so logs (INFO/WARNING/ERROR)
         // can be displayed first before normal program output.
         std::vector<std::string> m_echoBuffer;
@@ -320,6 +324,7 @@ namespace bloch::runtime {
         void initStaticFields(RuntimeClass* cls);
         void ensureGcThread();
         void requestGc();
+        void rethrowPendingDestructorError();
         void runCycleCollector();
         void markValue(const Value& v);
         void markObject(const std::shared_ptr<Object>& obj);
